@@ -375,12 +375,14 @@ func (d *Def) getMethodNameAndSetIsStatic(
 				ctx.IsDefineStatic,
 			)
 
-		if objectT.ID == "" {
-			objectT.ID = base.GenId()
-		}
+		if objectT != nil {
+			if objectT.ID == "" {
+				objectT.ID = base.GenId()
+			}
 
-		ctx.SetClass(objectT.ID)
-		ctx.SetFrame(objectT.GetFrame())
+			ctx.SetClass(objectT.ID)
+			ctx.SetFrame(objectT.GetFrame())
+		}
 
 		t, err = p.ReadTwice()
 		if err != nil {
